@@ -38,6 +38,7 @@ import (
 
 	"github.com/Dash-Industry-Forum/livesim2/cmd/livesim2/app"
 	"github.com/Dash-Industry-Forum/livesim2/pkg/logging"
+	"github.com/Eyevinn/dash-mpd/mpd"
 	"github.com/Eyevinn/mp4ff/mp4"
 
 	"verifharness/tr"
@@ -50,19 +51,83 @@ type repInfo struct {
 	CT      string `json:"ct"`      // video | audio | text
 	TS      int    `json:"ts"`      // media timescale
 	TOffMax int    `json:"toffmax"` // max (tfdt - nr*segTicks): 0 for video/text, one frame - 1 for audio
-	SegTick int    `json:"segticks"`
 	vodInit string // file below the VoD root ("" = generated)
 }
 
 type variant struct {
-	name     string
-	prefix   string // URL part between /livesim2 and the asset
-	asset    string
-	mpd      string
-	segDurMS int
-	mode     string // number | time
-	chunked  bool
-	reps     []repInfo
+	name       string
+	prefix     string // URL part between /livesim2 and the asset
+	asset      string
+	mpd        string
+	segDurMS   int    // nominal (average) segment duration
+	durs       []int  // segment durations (ms) of the reference (video) track over one loop; nil = uniform segDurMS
+	mode       string // number | time
+	chunked    bool
+	nonUniform bool
+	reps       []repInfo
+}
+
+// startMS is the start of segment n (numbers from 0, wrapping with the loop) on the reference timeline.
+func (v *variant) startMS(n int64) int64 {
+	L := int64(len(v.durs))
+	loop := int64(0)
+	for _, d := range v.durs {
+		loop += int64(d)
+	}
+	w, k := n/L, n%L
+	t := w * loop
+	for i := int64(0); i < k; i++ {
+		t += int64(v.durs[i])
+	}
+	return t
+}
+
+func (v *variant) endMS(n int64) int64 { return v.startMS(n + 1) }
+
+// firstNr: number after the newest segment that has fully ended at t (driver side: only used for real-time bounds).
+func (v *variant) firstNr(t int64) int64 {
+	n := int64(0)
+	loop := v.startMS(int64(len(v.durs)))
+	n = (t / loop) * int64(len(v.durs))
+	for v.endMS(n) <= t {
+		n++
+	}
+	return n
+}
+
+func (v *variant) minDur() int {
+	m := v.durs[0]
+	for _, d := range v.durs {
+		if d < m {
+			m = d
+		}
+	}
+	return m
+}
+
+// readDurs: segment durations of the video track from the SegmentTimeline of the VoD MPD (independent parse).
+func readDurs(asset, mpdName string) ([]int, error) {
+	mp, err := mpd.ReadFromFile(filepath.Join(vodRoot, asset, mpdName))
+	if err != nil {
+		return nil, err
+	}
+	for _, as := range mp.Periods[0].AdaptationSets {
+		if string(as.ContentType) != "video" || as.SegmentTemplate == nil || as.SegmentTemplate.SegmentTimeline == nil {
+			continue
+		}
+		ts := int(as.SegmentTemplate.GetTimescale())
+		durs := []int{}
+		for _, s := range as.SegmentTemplate.SegmentTimeline.S {
+			for i := 0; i <= int(s.R); i++ {
+				if int(s.D)*1000%ts != 0 {
+					return nil, fmt.Errorf("segment duration %d/%d is not a whole number of ms", s.D, ts)
+				}
+				durs = append(durs, int(s.D)*1000/ts)
+			}
+		}
+		return durs, nil
+	}
+	return nil, fmt.Errorf("no video SegmentTimeline in %s/%s", asset, mpdName)
 }
 
 func baseReps(asset string) []repInfo {
@@ -96,6 +161,11 @@ func variants() []variant {
 		{name: "timeline8s", prefix: "/segtimeline_1", asset: "testpic_8s", mpd: "Manifest.mpd", segDurMS: 8000, mode: "time", reps: baseReps("testpic_8s")},
 		// low latency: chunked transfer encoding, one step takes about one second of wall time
 		{name: "chunked", prefix: "/segtimeline_1/ato_1/chunkdur_1000", asset: t2, mpd: "Manifest.mpd", segDurMS: 2000, mode: "time", chunked: true, reps: baseReps(t2)},
+		// non-uniform segment durations (4 s / 8 s alternating, VoD MPD is $Time$ addressed); durs are read from the VoD MPD
+		{name: "altnumber", prefix: "", asset: "testpic_alt_seg_dur_stl", mpd: "Manifest.mpd", segDurMS: 6000, mode: "number", nonUniform: true,
+			reps: baseReps("testpic_alt_seg_dur_stl")},
+		{name: "alttimeline", prefix: "/segtimeline_1", asset: "testpic_alt_seg_dur_stl", mpd: "Manifest.mpd", segDurMS: 6000, mode: "time", nonUniform: true,
+			reps: baseReps("testpic_alt_seg_dur_stl")},
 		{name: "chunkednr", prefix: "/ato_1/chunkdur_1000", asset: t2, mpd: "Manifest.mpd", segDurMS: 2000, mode: "number", chunked: true, reps: baseReps(t2)},
 	}
 }
@@ -104,6 +174,15 @@ var vodRoot string
 
 // fillRepConstants reads the time scale (and the audio frame duration) from the VoD files.
 func fillRepConstants(v *variant) error {
+	if v.nonUniform {
+		d, err := readDurs(v.asset, v.mpd)
+		if err != nil {
+			return err
+		}
+		v.durs = d
+	} else {
+		v.durs = []int{v.segDurMS}
+	}
 	for i := range v.reps {
 		r := &v.reps[i]
 		if r.vodInit != "" {
@@ -118,7 +197,12 @@ func fillRepConstants(v *variant) error {
 			r.TS = int(f.Init.Moov.Trak.Mdia.Mdhd.Timescale)
 			if r.CT == "audio" {
 				// frame duration from the first VoD segment
-				seg, err := os.ReadFile(filepath.Join(vodRoot, filepath.Dir(r.vodInit), "1.m4s"))
+				segs, _ := filepath.Glob(filepath.Join(vodRoot, filepath.Dir(r.vodInit), "*.m4s"))
+				if len(segs) == 0 {
+					return fmt.Errorf("no VoD segment for %s", r.vodInit)
+				}
+				sort.Strings(segs)
+				seg, err := os.ReadFile(segs[0])
 				if err != nil {
 					return err
 				}
@@ -133,7 +217,6 @@ func fillRepConstants(v *variant) error {
 				r.TOffMax = int(fs[0].Dur) - 1
 			}
 		}
-		r.SegTick = v.segDurMS * r.TS / 1000
 	}
 	return nil
 }
@@ -439,14 +522,16 @@ func (rn *run) ServeHTTP(w http.ResponseWriter, r *http.Request) {
 		"status": status, "isig": bi.isig, "seqok": bi.seqok || bi.kind != "media"}
 	if bi.kind == "media" && s >= 1 {
 		sc := rn.sc.Sess[s-1]
-		segTicks := int64(0)
+		ts := int64(0)
 		for _, rinfo := range sc.V.reps {
 			if rinfo.ID == rep {
-				segTicks = int64(rinfo.SegTick)
+				ts = int64(rinfo.TS)
 			}
 		}
 		patch["nr"] = clip(bi.nr)
-		patch["toff"] = clip(bi.tfdt - bi.nr*segTicks)
+		if bi.nr >= 0 && bi.nr < 2_000_000_000 {
+			patch["toff"] = clip(bi.tfdt - sc.V.startMS(bi.nr)*ts/1000) // start of segment nr on the reference timeline, in this track's timescale
+		}
 		if form == "num" {
 			if sc.V.mode == "time" {
 				patch["ud"] = clip(urlnum - bi.tfdt)
@@ -505,11 +590,11 @@ func sessEvent(si int, s sessCfg) tr.E {
 	first := 0
 	now := s.NowMS
 	if s.NowMS >= 0 {
-		first = s.NowMS / s.V.segDurMS // informative: FirstNr is recomputed by the trace spec from now / segdur
+		first = int(s.V.firstNr(int64(s.NowMS))) // informative: FirstNr is recomputed by the trace spec from now / segdurs
 	} else {
 		now = 0
 	}
-	return tr.E{"ev": "sess", "s": si, "variant": s.V.name, "reps": reps, "segdur": s.V.segDurMS, "mode": s.V.mode, "streams": s.Streams,
+	return tr.E{"ev": "sess", "s": si, "variant": s.V.name, "reps": reps, "segdurs": s.V.durs, "mode": s.V.mode, "streams": s.Streams,
 		"auth": authOf(s.User, s.Pass), "dur": s.Dur, "rt": s.NowMS < 0, "now": now, "firstlo": first, "firsthi": first,
 		"chunked": s.V.chunked}
 }
@@ -672,7 +757,7 @@ func (rn *run) exec() error {
 			}
 			want := served[si]
 			if s.Dur >= 0 {
-				nhi := (s.Dur*1000 + s.V.segDurMS - 1) / s.V.segDurMS
+				nhi := (s.Dur*1000 + s.V.minDur() - 1) / s.V.minDur()
 				if want > nhi {
 					want = nhi
 				}
@@ -708,10 +793,10 @@ func (rn *run) exec() error {
 	for i, s := range sc.Sess {
 		si := i + 1
 		if s.NowMS < 0 {
-			lo := t0[si] / int64(s.V.segDurMS)
+			lo := s.V.firstNr(t0[si])
 			hi := lo
 			if fs, ok := rn.firstSeen[si]; ok {
-				hi = fs / int64(s.V.segDurMS)
+				hi = s.V.firstNr(fs)
 			}
 			rn.rec.patch(sessEv[si], tr.E{"firstlo": clip(lo), "firsthi": clip(hi)})
 		}
@@ -734,7 +819,7 @@ func (rn *run) exec() error {
 			}
 			url = fmt.Sprintf("%s%d.m4s", base, seg)
 			if s.NowMS >= 0 {
-				url += fmt.Sprintf("?nowMS=%d", (ri.nr+1)*int64(s.V.segDurMS)+500)
+				url += fmt.Sprintf("?nowMS=%d", s.V.endMS(ri.nr)+500)
 			}
 		default:
 			continue
@@ -904,11 +989,22 @@ func fixedScenarios(vs []variant, rng *rand.Rand, chunked bool) []*scenario {
 		if v.segDurMS > 2000 {
 			steps = 2
 		}
+		if v.nonUniform {
+			steps = 4
+		}
 		for _, streams := range []bool{false, true} {
 			if v.chunked && streams {
 				continue
 			}
 			s := sessCfg{V: v, Streams: streams, Dur: -1, NowMS: nowFor(rng, v.segDurMS)}
+			if v.nonUniform {
+				// start before a short and before a long segment, on and off a boundary
+				loop := int(v.startMS(int64(len(v.durs))))
+				s.NowMS = (1+rng.Intn(20))*loop + pick(rng, []int{1000, v.durs[0], v.durs[0] + 1, v.durs[0] + 3000, loop - 1, 0})
+				if !streams {
+					s.NowMS = (1+rng.Intn(20))*loop + 1000 // next segment is a short one, the one after it a long one
+				}
+			}
 			if (i+map[bool]int{true: 1, false: 0}[streams])%2 == 0 {
 				s.User, s.Pass = "alice", "s3cret"
 			}
